@@ -227,7 +227,13 @@ class _LibrationDynamicsService(_DynamicsServiceBase):
         def _factory() -> CenterManifold:
             return CenterManifold(self.domain_obj, degree)
         
-        return self.get_or_create(cache_key, _factory)
+        center_manifold = self.get_or_create(cache_key, _factory)
+        if center_manifold.degree != degree:
+            # The cached object was re-targeted to another degree by its user:
+            # it is no longer the centre manifold of the requested degree
+            self.reset(cache_key)
+            center_manifold = self.get_or_create(cache_key, _factory)
+        return center_manifold
 
     def hamiltonian(self, max_deg: int, form: str = "center_manifold_real") -> Hamiltonian:
         """
